@@ -20,6 +20,8 @@ DIMSETS = {
     "r3_p2_e2": [("r", "Region", ["r1", "r2", "r3"], str), ("p", "Product", ["p1", "p2"], None), ("e", "Element", ["Fe", "Cu"], str)],
     "T3_r2_p2_e2": [("t", "Time", [2000, 2005, 2010], int), ("r", "Region", ["r1", "r2"], str), ("p", "Product", ["p1", "p2"], None), ("e", "Element", ["Fe", "Cu"], str)],
     "u2i": [("u", "Unitno", [1, 2], None)],  # untyped numeric items
+    "T3d_r2": [("t", "Time", [2010, 1990, 2000], int), ("r", "Region", ["r2", "r1"], str)],  # items not in ascending order
+    "c3u": [("c", "Cohort", [2010.0, 1990.5, 2000.0], None)],
 }
 
 
